@@ -22,6 +22,8 @@ import (
 	"golang.org/x/tools/go/ssa"
 )
 
+var branchLog = os.Getenv("GOSMX_BRANCHLOG") != ""
+
 type continuation int
 
 const (
@@ -270,6 +272,9 @@ func visitInstr(fr *frame, instr ssa.Instruction) continuation {
 		}
 		if i.decide(fr, c) {
 			succ = 0
+		}
+		if branchLog {
+			fmt.Fprintf(os.Stderr, "IF %s %s -> %d\n", fr.fn.Name(), fr.pos(instr.Cond.Pos()), succ)
 		}
 		fr.jump(fr.block.Succs[succ])
 		return kJump
